@@ -266,11 +266,11 @@ def write_json(path, obj):
     return path
 
 
-def iter_states(r):
+def iter_states(r, lazy=(), keep=None):
     from . import tlaval
     if not r.get('dump') or not os.path.exists(r['dump']):
         raise MachineryError('TLC wrote no dump')
-    for st in tlaval.iter_dump(r['dump']):
+    for st in tlaval.iter_dump(r['dump'], lazy=lazy, keep=keep):
         yield st
     try:
         os.remove(r['dump'])
